@@ -18,3 +18,21 @@ Example C16_empty_list_and_unterminated_quote :
   parse_key_paths [123; 32; 125] = Ok [] /\ parse_key_paths [123; 34; 97; 98; 99; 125] = Err EOther.
 Proof. split; vm_compute; reflexivity. Qed.
 Print Assumptions C16_empty_list_and_unterminated_quote.
+
+(* ---- printing a key path and parsing the printout gives the same elements, for every list of elements whose
+   names need no escapes: indices anywhere in the i32 range, plain names without delimiter bytes or backslash that do
+   not start with a digit, quoted names without quote or backslash (any other bytes, spaces and delimiters included) *)
+From JB Require Import KeyPathRoundtrip.
+Theorem C16_print_then_parse : forall ks, Forall safe_kp ks -> parse_key_paths (show_key_paths ks) = Ok ks.
+Proof. exact key_paths_roundtrip. Qed.
+Print Assumptions C16_print_then_parse.
+
+(* one element followed by ',' or '}': a signed integer is an index, a quoted string a quoted name, anything else made
+   of name characters a plain name *)
+Theorem C16_element_meaning : forall k rest, safe_kp k -> stop rest -> key_path (show_keypath k ++ rest) = POk rest k.
+Proof. exact key_path_roundtrip. Qed.
+Print Assumptions C16_element_meaning.
+
+Theorem C16_hypothesis_satisfiable :
+  Forall safe_kp [KIndex (-7); KName [110; 97; 109; 101]; KQuoted [113; 32; 110]; KIndex 0].
+Proof. exact key_paths_roundtrip_example. Qed.
